@@ -13,6 +13,13 @@ from pydcop.infrastructure.orchestratedagents import OrchestratedAgent, ORCHESTR
 class OrchWorld(AgentWorld):
     def __init__(self, dcop, algo_def, cg, distribution, infinity=10000, replication=None, seed=0, agents=None):
         super().__init__(seed)
+        # the algorithms and the repair code draw from the global generators: seed them so that a run can be replayed
+        random.seed(seed)
+        try:
+            import numpy
+            numpy.random.seed(seed % (2 ** 32))
+        except ImportError:
+            pass
         self.dcop = dcop
         self.orch = Orchestrator(algo_def, cg, distribution, InProcessCommunicationLayer(), dcop, infinity)
         oa = self.orch._own_agt
